@@ -231,6 +231,7 @@ func checkC03(c Case, r *vcore.Rec) *vcore.Failure {
 	}
 	r.ClassIf(o.Keeps > 0, "keep_decision")
 	r.ClassIf(o.Releases > 0, "release_decision")
+	r.ClassIf(o.ConcurrentExcess, "immutable_dp_siblings_unbound_concurrently")
 	if o.Keeps > 0 && o.Releases > 0 && o.ScaleOrDelete {
 		r.NonTrivial()
 	}
@@ -238,12 +239,51 @@ func checkC03(c Case, r *vcore.Rec) *vcore.Failure {
 }
 
 func TestC03(t *testing.T) {
-	vcore.Run(t, "C03", rapid.Custom(func(t *rapid.T) Case { return GenHistory(t, c03Params) }), checkC03)
+	vcore.Run(t, "C03", rapid.Custom(func(t *rapid.T) Case {
+		c := GenHistory(t, c03Params)
+		if rapid.IntRange(0, 5).Draw(t, "doubleDelete") == 0 {
+			// a scale-down of an immutable deployment that coincides with a second pod going away: the deployment holds replicas+1
+			// IPs and the delete events of two of its pods are handled at the same time (one unbind loop each)
+			c.WLs = append([]WL{{Kind: "dp", Name: "dz", Policy: "immutable", Replicas: 3}}, c.WLs...)
+			c.NoNameReuse = true
+			var story []Op
+			for i := 0; i < 3; i++ {
+				story = append(story, Op{K: "create"}, Op{K: "sched", B: 63})
+			}
+			story = append(story, Op{K: "scale", B: 2}, Op{K: "delete"}, Op{K: "delete"})
+			for i := 0; i < 14; i++ {
+				story = append(story, Op{K: "deliver"})
+			}
+			var sch []int
+			switch rapid.IntRange(0, 2).Draw(t, "ddShape") {
+			case 0:
+				for i := 0; i < 60; i++ {
+					sch = append(sch, i%2)
+				}
+			case 1:
+				for i, k := 0, rapid.IntRange(1, 8).Draw(t, "ddPrefix"); i < 60; i++ {
+					if i < k {
+						sch = append(sch, 0)
+					} else {
+						sch = append(sch, 1)
+					}
+				}
+			default:
+				sch = rapid.SliceOfN(rapid.IntRange(0, 1), 10, 60).Draw(t, "ddSched")
+			}
+			story = append(story, Op{K: "episode", Sub: []Op{{K: "unbind"}, {K: "unbind"}}, Sched: sch})
+			c.Ops = append(story, c.Ops...)
+			if c.FaultAt != nil {
+				c.FaultAt.Op += len(story)
+			}
+		}
+		return c
+	}), checkC03)
 }
 
-var c10Params = &HistoryParams{MinOps: 15, MaxOps: 50, Cloud: 2, CloudFail: true, Lag: true, Episodes: true, Ranges: true,
+var c10Params = &HistoryParams{MinOps: 15, MaxOps: 50, Cloud: 2, CloudFail: true, Lag: true, Episodes: true, Ranges: true, Reloads: true,
 	Weights: map[string]int{"create": 18, "delete": 14, "sched": 20, "phase": 6, "deliver": 12, "unbind": 12, "drop": 1, "reserve": 0,
-		"unreserve": 0, "fipevent": 0, "apirelease": 4, "restart": 1, "resync": 6},
+		"unreserve": 0, "fipevent": 0, "apirelease": 4, "restart": 1, "resync": 6, "reload": 3, "syncips": 4},
 	Kinds: []string{"sts", "sts", "dp", "cr", "bare", "dppool"}}
 
 func checkC10(c Case, r *vcore.Rec) *vcore.Failure {
@@ -254,6 +294,7 @@ func checkC10(c Case, r *vcore.Rec) *vcore.Failure {
 	}
 	r.ClassIf(o.Moved, "pod_identity_moved_node")
 	r.ClassIf(o.ProvFail, "provider_call_failed")
+	r.ClassIf(o.Dropped, "assigned_ip_deconfigured")
 	if o.Moved || o.ProvFail {
 		r.NonTrivial()
 	}
@@ -261,7 +302,29 @@ func checkC10(c Case, r *vcore.Rec) *vcore.Failure {
 }
 
 func TestC10(t *testing.T) {
-	vcore.Run(t, "C10", rapid.Custom(func(t *rapid.T) Case { return GenHistory(t, c10Params) }), checkC10)
+	vcore.Run(t, "C10", rapid.Custom(func(t *rapid.T) Case {
+		c := GenHistory(t, c10Params)
+		if len(c.Configs) > 1 && rapid.IntRange(0, 2).Draw(t, "deconfigStory") == 0 {
+			// an address is taken out of the configuration under a running pod and put back; the pod-IP sync re-creates its record
+			// from the pod; then the pod goes away like any other
+			arg := func(k string) Op {
+				return Op{K: k, A: rapid.IntRange(0, 7).Draw(t, "da"), B: rapid.IntRange(0, 63).Draw(t, "db"), C: rapid.IntRange(0, 7).Draw(t, "dc")}
+			}
+			story := []Op{arg("create"), {K: "sched", B: 63}, {K: "phase"}, {K: "deliver"}, {K: "deliver"},
+				{K: "reload", A: 1 + rapid.IntRange(0, len(c.Configs)-2).Draw(t, "dcfg")}, {K: "reload", A: 0}, {K: "syncips"}}
+			if rapid.Bool().Draw(t, "dmissed") {
+				story = append(story, Op{K: "delete"}, Op{K: "deliver"}, Op{K: "deliver"}, Op{K: "unbind"}, Op{K: "resync"})
+			} else {
+				story = append(story, Op{K: "delete"}, Op{K: "drop"}, Op{K: "drop"}, Op{K: "resync"}, Op{K: "resync"})
+			}
+			at := 0
+			if rapid.Bool().Draw(t, "dlate") {
+				at = rapid.IntRange(0, len(c.Ops)).Draw(t, "dat")
+			}
+			c.Ops = append(c.Ops[:at:at], append(story, c.Ops[at:]...)...)
+		}
+		return c
+	}), checkC10)
 }
 
 var c07Params = &HistoryParams{MinOps: 10, MaxOps: 35, Cloud: 0, Episodes: true, Phrases: 20, FaultPct: 25, Lag: true,
@@ -272,6 +335,9 @@ var c07Params = &HistoryParams{MinOps: 10, MaxOps: 35, Cloud: 0, Episodes: true,
 
 func genC07() *rapid.Generator[Case] {
 	return rapid.Custom(func(t *rapid.T) Case {
+		if rapid.IntRange(0, 39).Draw(t, "startupCase") == 39 {
+			return Case{Startup: genStartup(t)}
+		}
 		c := GenHistory(t, c07Params)
 		c.NoNameReuse = true
 		// every deployment shares one of two pools and every pool has a Pool object with a size
@@ -302,6 +368,9 @@ func genC07() *rapid.Generator[Case] {
 }
 
 func checkC07(c Case, r *vcore.Rec) *vcore.Failure {
+	if c.Startup != nil {
+		return checkStartup(c.Startup, r)
+	}
 	if f := maybeEnumerate(c, r, func() []Observer { return []Observer{&ObsC07{}} }); f != nil {
 		return f
 	}
